@@ -47,7 +47,7 @@ ASSUMPTIONS = [
     "numbers its fields (1 type, 2 Tc, 3 qc) unlike ei_modifyconductorprop and the manual (1 Tc, 2 qc, 3 type), is not used",
     "generated drawings are planar straight-line graphs (no node on a foreign segment, no crossing segments), so the automatic "
     "splitting of FemmProblem::addSegment/addNode never fires; problems without any fixed potential are given one (the solvers "
-    "iterate for ever on them); axisymmetric magnetics in microns is excluded (fsolver returns NaN on both routes)",
+    "iterate for ever on them)",
 ]
 TABLE = []
 SOLVER = {"fem": "fsolver", "fee": "esolver", "feh": "hsolver"}
